@@ -5,7 +5,9 @@ package anytype
 // explored path is replayed natively and every observation must agree byte for byte.
 
 import (
+	"errors"
 	"fmt"
+	"strconv"
 	"math"
 	"sort"
 	"strings"
@@ -56,5 +58,24 @@ func H_SELF_sort_slice() {
 		verifObserve("x", xs[i])
 		verifObserve("y", ys[i])
 	}
+	verifReach("end")
+}
+
+func H_SELF_errors() {
+	s := hAscii(nondetIntRange(1, 3))
+	_, err := strconv.ParseInt(s, 10, 64)
+	verifObserve("nil", err == nil)
+	verifObserve("range", errors.Is(err, strconv.ErrRange), errors.Is(err, strconv.ErrSyntax))
+	verifReach("end")
+}
+
+func H_SELF_fmt_symbolic_format() {
+	k := hAscii(nondetIntRange(1, 2))
+	for i := 0; i < len(k); i++ {
+		c := k[i] // flags, widths and precisions at data positions are outside the model
+		verifAssume(verifAnd(verifOr(c < '0', c > '9'), verifAnd(verifAnd(c != '+', c != '-'), verifAnd(verifAnd(c != '#', c != ' '), verifAnd(verifAnd(c != '.', c != '*'), verifAnd(c != '[', c != 'q'))))))
+	}
+	v := hAscii(1)
+	verifObserve("f", fmt.Sprintf("\""+k+"\":%s", v))
 	verifReach("end")
 }
